@@ -5,11 +5,9 @@ from vt.core import Ob, OK, FAIL, UNDEC, ERR
 def all_contracts():
     from vt.e1 import tt_contracts
     reg = dict(tt_contracts.REG)
-    try:
-        from vt.e1 import sle_contracts
-        reg.update(sle_contracts.REG)
-    except ImportError:
-        pass
+    from vt.e1 import sle_contracts, ode_contracts
+    reg.update(sle_contracts.REG)
+    reg.update(ode_contracts.REG)
     return reg
 
 
